@@ -41,9 +41,13 @@ def den(T):
     # qtools' own rule (get_exp) for the bits left of the binary point: max(0, min(ceil(log2 max_val), emax)).
     # For a max_val that is not a power of two the type therefore reaches 2^ceil(log2 max_val) > max_val - which is what
     # the quantizers emit (they round the exponent of the clipped value: max_value=3 gives 4).
+    # The VALUES the type holds are bounded by 2^ceil(log2 max_val) as well (get_exp's max(0, .) only says that no integer
+    # bits are needed below 1).
     if mv != -1:
       emax = 0 if mv <= 0 else min(int(math.ceil(math.log2(mv))), emax)
       emax = max(0, emax)
+      if mv > 0:
+        emax = min(emax, int(math.ceil(math.log2(mv))))
     if emax < emin:
       return Den("empty")
     return Den("po2", signed=signed, emin=int(emin), emax=int(emax))
